@@ -319,6 +319,9 @@ class Schema(dict, metaclass=LogicalMeta):
 
         context = self.__parser__.make_context(force_error=True)
         value = field.parse_value(value, context=context)
+        if unprovided(value):
+            # the invalid value was excluded (on_error / invalid_values = 'exclude'): nothing to assign
+            return
 
         if field.property:
             if callable(setter):
